@@ -119,5 +119,36 @@ pub fn run(o: &Opts) -> Report {
         let model = driver_batch(&o.driver, &reqs, o.par);
         for ((req, m), i) in reqs.iter().zip(model.iter()).zip(impls.iter()) { if m != i { rep.disagree("parse", req, m, i); } }
     }
+    {
+        use crate::pcorr::*;
+        // `subcommand_precedence_over_arg` does not reach behind `--`
+        let mk = || { let mut c = CmdS { name: "prog".into(), ..Default::default() };
+            c.settings.subcommand_precedence_over_arg = true;
+            c.args.push(ArgS { id: "verbose".into(), short: Some('v'), action: Some("setTrue"), ..Default::default() });
+            c.args.push(ArgS { id: "rest".into(), num_vals: Some((0, None)), ..Default::default() });
+            let mut run = CmdS { name: "run".into(), aliases: vec!["r".into()], ..Default::default() };
+            run.args.push(ArgS { id: "what".into(), num_vals: Some((0, None)), ..Default::default() });
+            c.subs.push(run); c };
+        let cases: Vec<(CmdS, Vec<Vec<u8>>, Expect)> = vec![
+            (mk(), bv(&["prog", "-v", "--", "a", "run", "b"]), Box::new(|m| { want_no_sub(m)?; want_occs(m, &[], "rest", &[&["a", "run", "b"]]) })),
+            (mk(), bv(&["prog", "--", "x", "help", "run"]), Box::new(|m| { want_no_sub(m)?; want_occs(m, &[], "rest", &[&["x", "help", "run"]]) })),
+            (mk(), bv(&["prog", "--", "r", "--", ""]), Box::new(|m| { want_no_sub(m)?; want_occs(m, &[], "rest", &[&["r", "--", ""]]) })),
+            (mk(), bv(&["prog", "a", "run", "b"]), Box::new(|m| { want_occs(m, &[], "rest", &[&["a"]])?; want_occs(m, &["run"], "what", &[&["b"]]) })),
+        ];
+        run_expect(&mut rep, o, "tail-token-dispatched-as-subcommand", cases);
+        // `[inputs]... [-- <rest>...]`: the whole tail belongs to the `last(true)` positional
+        let mk2 = |lo: usize| { let mut c = CmdS { name: "prog".into(), ..Default::default() };
+            c.args.push(ArgS { id: "verbose".into(), short: Some('v'), action: Some("setTrue"), ..Default::default() });
+            c.args.push(ArgS { id: "inputs".into(), num_vals: Some((lo, None)), ..Default::default() });
+            c.args.push(ArgS { id: "rest".into(), num_vals: Some((0, None)), last: true, ..Default::default() }); c };
+        let mut cases2: Vec<(CmdS, Vec<Vec<u8>>, Expect)> = vec![];
+        for lo in [0usize, 1] {
+            cases2.push((mk2(lo), bv(&["prog", "in1", "in2", "--", "a", "b", "c"]), Box::new(|m| { want_occs(m, &[], "inputs", &[&["in1", "in2"]])?; want_occs(m, &[], "rest", &[&["a", "b", "c"]]) })));
+            cases2.push((mk2(lo), bv(&["prog", "-v", "in1", "--", "a", "--", "", "run", "--opt=x"]), Box::new(|m| { want_occs(m, &[], "inputs", &[&["in1"]])?; want_occs(m, &[], "rest", &[&["a", "--", "", "run", "--opt=x"]]) })));
+            cases2.push((mk2(lo), bv(&["prog", "in1", "--", "--help", "-v", "x", "y"]), Box::new(|m| want_occs(m, &[], "rest", &[&["--help", "-v", "x", "y"]]))));
+        }
+        run_expect(&mut rep, o, "tail-diverted-from-the-last-positional", cases2);
+    }
+    crate::pcorr::run_generic(&mut rep, o, 0xC05);
     rep
 }
